@@ -126,6 +126,9 @@ def run(ctx):
     fails, facts = run_l2(ctx, [S.fanout, S.irflow, S.waitfan], ctx.n(150, 3000), l2_monitor,
                           need=(("preparing", 10), ("returned_input_required", 10), ("state_changes", 200)))
     report_l2(ctx, fails)
+    # the run-loop theorems (C35_run_loop_*) rest on Model/Runner.v: tie it to _ControlLoopRunner
+    from props._engine_common import run_runnerdiff
+    run_runnerdiff(ctx, ctx.n(60, 1500), 'C35_run_loop_stream_is_log_commands / C35_run_loop_stream_telemetry')
 
 
 def replay(ctx, path):
